@@ -17,7 +17,7 @@ BUILD=ok; go build ./pkg/... ./cmd/... >/tmp/seed-build.txt 2>&1 || BUILD=fail
 go test -vet=off -count=1 ./$PKG/ > /tmp/seed-demo-with.txt 2>&1
 DEMO_WITH=$(fails /tmp/seed-demo-with.txt)
 mkdir -p /tmp/seed-demo-hold; rm -f /tmp/seed-demo-hold/*; for f in $D/*_test.go; do mv $W/$PKG/$(basename $f) /tmp/seed-demo-hold/ 2>/dev/null; done
-go test -vet=off -count=1 ./$PKG/ > /tmp/seed-existing.txt 2>&1
+go test -vet=off -count=1 ./${EXISTING_PKG:-$PKG}/ > /tmp/seed-existing.txt 2>&1
 EXISTING=$(fails /tmp/seed-existing.txt)
 RES=""
 # the checks below run against the changed tree: what they write must not replace the evidence files
